@@ -238,6 +238,9 @@ func (b *Blob) Set(src blob.Blob, destStart int64) (n int, err error) {
 
 // Grow implements blob.GrowBlob
 func (b *Blob) Grow(off int64) error {
+	if off < 0 {
+		return fmt.Errorf("negative grow size: %d", off)
+	}
 	newLength := atomic.LoadInt64(&b.length) + off
 
 	buf := b.jsValue.Load().(safejs.Value)
@@ -263,6 +266,9 @@ func (b *Blob) Grow(off int64) error {
 
 // Truncate implements TruncateBlob
 func (b *Blob) Truncate(size int64) error {
+	if size < 0 {
+		return fmt.Errorf("negative truncate size: %d", size)
+	}
 	if atomic.LoadInt64(&b.length) < size {
 		return nil
 	}
